@@ -652,8 +652,10 @@ func checkC17(c *Ctx) {
 	c.Clause("with plugins configured every request reaches the balancer through the chain: the handler builder uses the balancer only as BuildChain's base (and as the no-plugin fallback) and hands on BuildChain's own result")
 	c.Clause("a plugin that authenticates compares with a credential its factory refused when empty; a failing listener start is reported to main (no shadowed error), and no fallible start-up step runs after the listener was started")
 	c.Clause("size_limit's rejection covers every request: no path reaches the next handler without the Content-Length test and the MaxBytesReader body (no method or header exempts a request)")
+	c.Clause("size_limit's numeric options fall back to their default only when the key is absent: a value that is present and unusable (null, wrong type, not positive) makes the factory fail")
 	c.NotDecided("run-time nesting for specific permutations (argued from the uniform loop shape, not enumerated)")
 
+	c.byteLimitOptions()
 	bc := p.Fn("internal/plugins", "", "BuildChain")
 	sp := &Spec{
 		Event: func(in ssa.Instruction, fr *Frame) string {
